@@ -251,14 +251,17 @@ def model_stage(ctx, open_dev):
     # corrected design: two programs, one loaded at the start, loads/reloads of both, unload of the second
     r = vlib.tlc(ctx, "Reload", model_cfg(4 if big else 3, [1, 2], [1], [1, 2], 3 if big else 2, 3 if big else 2, [2], False),
                  label="Reload-2prog", timeout=1500)
-    r1 = vlib.tlc(ctx, "Reload", model_cfg(4 if big else 3, [1], [1], [1], 3, 2, [1], False),
-                  label="Reload-1prog", timeout=1500, coverage=True)
-    if r1.zero_cov:
-        raise vlib.InfraError("Reload.tla: actions never taken (vacuous model): %s" % r1.zero_cov)
+    n1 = 0
+    if big:
+        r1 = vlib.tlc(ctx, "Reload", model_cfg(4, [1], [1], [1], 3, 2, [1], False),
+                      label="Reload-1prog-coverage", timeout=1500, coverage=True)
+        if r1.zero_cov:
+            raise vlib.InfraError("Reload.tla: actions never taken (vacuous model): %s" % r1.zero_cov)
+        n1 = r1.distinct
     # the deviation really breaks the property
     d = vlib.expect_dev_counterexample(ctx, "Reload", model_cfg(3, [1], [1], [1], 2, 1, [], True), DEV)
     ctx.cov["dev_counterexample"] = {"deviation": DEV, "violated": d.violated}
-    return r.distinct + r1.distinct
+    return r.distinct + n1
 
 
 def classify_replay(ctx, binary, cases, results, model_dev, what):
@@ -338,7 +341,7 @@ def run(ctx):
         nontriv |= nontrivial_keys(cases)
         mid = cases[len(cases) // 2]
         ctx.sample({"set": what, "schedule": short(mid), "procd": mid["procd"], "writes": mid["writes"]})
-        step = 1 if (ctx.thorough or len(cases) < 400) else 2
+        step = 1 if ctx.thorough else 4
         for c in cases[::step]:
             r = results[c["id"]]
             if not r.get("stuck"):
@@ -381,7 +384,10 @@ def run(ctx):
         segs.append(s)
         seg_src.append({"kind": "selftest", "variant": kind})
 
-    rej, _ = validate_segments(ctx, segs, False, True, "trace-corrected")
+    # the specification the real code is held to: the corrected design, or - while the finding is open and the
+    # witness schedule reproduces - the design with DEV_OldVmNotAwaited (a superset at trace level)
+    rej, _ = validate_segments(ctx, segs, dev_present, not dev_present,
+                               "trace-dev" if dev_present else "trace-corrected")
     for k, src in enumerate(seg_src):
         if src["kind"] == "selftest" and k not in rej:
             raise vlib.InfraError("TraceReload.tla accepted a trace with a %s (self-test): the trace spec does not bind"
@@ -390,13 +396,12 @@ def run(ctx):
     ctx.cov["traces_validated_against_impl"] += len(segs) - 2
     ctx.cov["trace_events"] = sum(len(s) for s in segs)
     ctx.cov["trace_segments"] = {"replay": sum(1 for s in seg_src if s["kind"] == "replay"), "fuzz": len(fz),
-                                 "gotest": len(tsegs), "rejected_by_corrected_design": len(real_rej)}
+                                 "gotest": len(tsegs), "rejected": len(real_rej)}
     explained = set()
-    if real_rej and dev_present:
-        sub = [segs[k] for k in real_rej]
-        rej2, _ = validate_segments(ctx, sub, True, False, "trace-dev")
-        explained = {real_rej[j] for j in range(len(sub)) if j not in rej2}
-        ctx.cov["trace_segments"]["explained_by_" + DEV] = len(explained)
+    if dev_present and ctx.thorough:
+        # statistic only: how many recorded executions show the deviation (rejected by the corrected design)
+        rej0, _ = validate_segments(ctx, segs[:-2], False, True, "trace-corrected")
+        ctx.cov["trace_segments"]["showing_" + DEV] = len(rej0 - rej)
     for k in real_rej:
         if k in explained:
             continue
